@@ -174,8 +174,8 @@ def stakingUnbond (v : ValId) (shares : Dec) : M Int := do
       distrHookWithdraw v
       if ds < shares then throwE "not_enough_shares"
       let ds' := ds - shares
-      -- delegation removed when empty (no AfterDelegationModified), else the hook queues a rebalance
-      if ds' ≠ 0 then queueRebalance
+      -- AfterDelegationModified, or BeforeDelegationRemoved when the delegation is emptied: both queue a rebalance
+      queueRebalance
       let remaining := sv.delShares - shares
       let issued : Int := if remaining = 0 then sv.tokens
                           else truncateInt (quo (mulInt shares sv.tokens) sv.delShares)
